@@ -215,10 +215,30 @@ func HarnessC06(kind, k, L, V int) { verifC06(kind, k, L, V, 0) }
 // wider request (a 7-key MGET) before: splitting must not depend on the object's history.
 func HarnessC06Warm(kind, k, L, V int) { verifC06(kind, k, L, V, 1) }
 
+// HarnessC06Refused: as HarnessC06, but the request object comes from the pool after a multi-key request
+// of a solver-chosen family (MGET / DEL / MSET) that was split and then REFUSED for exceeding the request
+// size limit (limit 70 bytes): nothing of the refused request may leak into the next one.
+func HarnessC06Refused(kind, k, L, V int) { verifC06(kind, k, L, V, 2) }
+
 func verifC06(kind, k, L, V, warm int) {
 	names := []string{"mget", "del", "mset"}
 	name := names[kind]
-	w, h, c := verifDecodeWorld(0)
+	limit := 0
+	if warm == 2 {
+		limit = 70
+	}
+	w, h, c := verifDecodeWorld(limit)
+	if warm == 2 {
+		big := [][]byte{[]byte(names[verifrt.Choice("refused_family", 3)])}
+		for i := 0; i < 8; i++ {
+			big = append(big, []byte{'{', 'w', '}', byte('1' + i)})
+		}
+		h.LocalFirst = 1 // the handler answers it locally (as the real handler does), so the object is recycled
+		w.Feed(c, VerifEncode(big...))
+		verifrt.Assert(len(h.Msgs) == 1 && h.Msgs[0].Type == codec.ReqTooLarge && c.Opened(), "oversized_request_refused")
+		h.Msgs = nil
+		w.Sent(c)
+	}
 	if warm == 1 {
 		h.LocalFirst = 1
 		w.Feed(c, VerifEncode([]byte("mget"), []byte("{w}1"), []byte("{w}2"), []byte("{w}3"), []byte("{w}4"), []byte("{w}5"), []byte("{w}6"), []byte("{w}7")))
@@ -307,6 +327,7 @@ var _ = hashkit.Hash
 
 func init() {
 	verifrt.Register("HarnessC06", func(p []int64) { HarnessC06(int(p[0]), int(p[1]), int(p[2]), int(p[3])) })
+	verifrt.Register("HarnessC06Refused", func(p []int64) { HarnessC06Refused(int(p[0]), int(p[1]), int(p[2]), int(p[3])) })
 	verifrt.Register("HarnessC06Warm", func(p []int64) { HarnessC06Warm(int(p[0]), int(p[1]), int(p[2]), int(p[3])) })
 }
 
